@@ -51,6 +51,8 @@ impl Prop for C19 {
         for _ in 0..(if th { 200 } else { 30 }) { ctrs.push(rng.next() % (u64::MAX - 1)); }
         for c in ctrs { v.push(case(&[("kind", "noise".into()), ("ctr", c.to_string()), ("pl", rng.range(0, 80).to_string()), ("seed", rng.next().to_string())])); }
         for _ in 0..(if th { 5000 } else { 400 }) { v.push(case(&[("kind", "dh".into()), ("mode", (*rng.pick(&["random", "random", "noncanon", "highbit"])).into()), ("seed", rng.next().to_string())])); }
+        // public-key derivation on many scalars (no model query: derive_public(k) must succeed and equal x25519(k, 9), which the `dh` cases tie to RFC 7748)
+        for _ in 0..(if th { 40 } else { 6 }) { v.push(case(&[("kind", "pubsweep".into()), ("n", "2000".into()), ("seed", rng.next().to_string())])); }
         for (i, _) in LOW_ORDER.iter().enumerate() { for alias in ["plain", "highbit"] { v.push(case(&[("kind", "loworder".into()), ("idx", i.to_string()), ("alias", alias.into()), ("seed", rng.next().to_string())])); } }
         for _ in 0..(if th { 1500 } else { 250 }) {
             let out = if rng.chance(1, 12) { 8160 } else { rng.range(1, 64) };
@@ -161,6 +163,20 @@ impl Prop for C19 {
                     let via = guard(|| crate::imp::sk(&a).diffie_hellman(&crate::imp::pk(&pb)).map_err(|_| ()));
                     if via != s1 && o.oracle_fail.is_none() { o.oracle_fail = Some(("diffie_hellman=x25519".into(), "PrivateKey::diffie_hellman differs from x25519".into())); }
                 }
+            }
+            "pubsweep" => {
+                let n = getn(c, "n"); o.nontrivial = Some(format!("pubsweep/{}", get(c, "seed")));
+                let mut base = vec![0u8; 32]; base[0] = 9;
+                for i in 0..n {
+                    let mut k = rng.bytes(32);
+                    match i % 8 { 0 => { k[0] &= 7; } 1 => { k[31] |= 0xc0; } 2 => { for x in k.iter_mut().skip(4) { *x = 0; } } _ => {} }   // scalars that clamping changes, and small ones
+                    let pa = guard(|| kestrel_crypto::x25519_derive_public(&k).map_err(|_| ()));
+                    let via = guard(|| kestrel_crypto::x25519(&k, &base).map_err(|_| ()));
+                    o.validated += 1;
+                    if !matches!(pa, Some(Ok(_))) || pa != via { o.impl_obs = format!("derive_public={} x25519(k,9)={}", fmt_res(&pa), fmt_res(&via)); o.model_obs = "equal, and a public key".into();
+                        o.oracle_fail = Some(("public=scalar*basepoint".into(), format!("derive_public({}) = {} but x25519(k, 9) = {}", hex(&k), fmt_res(&pa), fmt_res(&via)))); return o; }
+                }
+                o.impl_obs = format!("{} scalars: derive_public = x25519(k, 9)", n); o.model_obs = "same".into();
             }
             "loworder" => {
                 let mut u = unhex(LOW_ORDER[getn(c, "idx")]);
